@@ -85,6 +85,11 @@ def perturb_same_type(rng, v, T):
     pos, sub_t = rng.choice(positions)
 
     def change(x):
+        if sub_t in ("any", "anyobj") and rng.random() < 0.2:
+            # the same number in the other numeric kind (1 against 1.0, somewhere inside): different content
+            y = kind_flip(rng, x)
+            if y != x:
+                return y
         if sub_t == "anyobj" and x[0] == "a":
             k = rng.randrange(4)
             fields = list(x[1])
@@ -148,6 +153,31 @@ def perturb_same_type(rng, v, T):
         return G.gen_value(rng, sub_t, 2, nfc_only=False)
 
     return G.replace_at(v, pos, change), pos
+
+
+def kind_flip(rng, v):
+    """v with one int leaf turned into the equal whole float, or one whole float into the equal int"""
+    leaves = []
+
+    def walk(x, path):
+        t = x[0]
+        if t == "i" and abs(x[1]) < 2**40:
+            leaves.append(path)
+        elif t == "f" and x[2] == 0 and abs(x[1]) < 2**40:
+            leaves.append(path)
+        elif t == "some":
+            walk(x[1], path + (("u",),))
+        elif t == "l":
+            for i, y in enumerate(x[1]):
+                walk(y, path + (("i", i),))
+        elif t in ("o", "a"):
+            for k, y in x[1]:
+                walk(y, path + (("k", k),))
+    walk(v, ())
+    if not leaves:
+        return v
+    pos = rng.choice(leaves)
+    return G.replace_at(v, pos, lambda x: ("f", x[1], 0) if x[0] == "i" else ("i", x[1]))
 
 
 def typed_positions(v, T, pre=()):
